@@ -452,7 +452,8 @@ Proof.
     destruct (pre_lines (b_line b) p1 []) as [ls p2]. cbn [fst snd] in *.
     destruct (pre_paren_ok 41 (b_rparen b) p2 Hrp C2) as [D1 D2].
     destruct (pre_paren (b_rparen b) p2) as [rp p3]. cbn [fst snd] in *.
-    split; [|exact D2]. cbn. repeat split; auto; try apply B1; try apply D1.
+    split; [|exact D2]. cbn [expr_ok]. unfold block_ok. cbn [b_token b_start b_lparen b_rparen b_line b_comments].
+    split; [exact Ht|]. split; [exact B1 || exact D1|]. split; [exact D1 || exact B1|]. split; [exact C1|exact A1].
   - intros (Hv & Hc) Hp.
     destruct (take_before_ok (cb_start c) (cb_comments c) pending Hc Hp) as [A1 A2].
     destruct (take_before _ _ _) as [c' p]. cbn in *. auto.
@@ -473,7 +474,8 @@ Proof.
     destruct (post_lines (frev (b_line b)) s1 []) as [ls s2]. cbn [fst snd] in *.
     destruct (post_paren_ok 40 (b_lparen b) s2 Hlp C2) as [D1 D2].
     destruct (post_paren (b_lparen b) s2) as [lp s3]. cbn [fst snd] in *.
-    split; [|exact D2]. cbn. repeat split; auto; try apply B1; try apply D1.
+    split; [|exact D2]. cbn [expr_ok]. unfold block_ok. cbn [b_token b_start b_lparen b_rparen b_line b_comments].
+    split; [exact Ht|]. split; [exact B1 || exact D1|]. split; [exact D1 || exact B1|]. split; [exact C1|exact A1].
   - intros (Hv & Hc) Hp.
     destruct (take_suffix_ok (cb_start c, cb_start c) (cb_comments c) sr Hc Hp) as [A1 A2].
     destruct (take_suffix _ _ _) as [c' p]. cbn in *. auto.
@@ -565,7 +567,7 @@ Proof.
     pose proof (file_loop_good data lend (parse_fuel (t0 :: ts)) None [] (t0 :: ts) Hp) as Hg.
     specialize (Hg ltac:(unfold parse_fuel; lia) I (Forall_nil _)).
     destruct (file_loop _ lend None [] (t0 :: ts)) as [stmts rest|p e| |]; cbn in Hg; try contradiction.
-    + destruct Hg as (Hs & _). cbn. apply assign_comments_ok; [exact Hs|]. apply comments_of_ok. exact Hall.
+    + destruct Hg as (Hs & _). cbn [parse_good]. apply assign_comments_ok; [exact Hs|]. apply comments_of_ok. exact Hall.
     + cbn. split; [discriminate|]. constructor; [exact Hg|constructor].
 Qed.
 
